@@ -174,7 +174,7 @@ func runExhaustive(o *vrt.Obs, p params) {
 // runRandom runs PRNG histories of length 10..60 with per-operation message variants, observing
 // everything after every operation.
 func runRandom(o *vrt.Obs, p params) {
-	rcpts := []string{"A", "B", "AB", "S"}
+	rcpts := []string{"A", "B", "AB", "S", "AcB", "AcS", "cA"}
 	lens := []int{0, 1, 40, 200, 1000, 3000}
 	files := []int{0, 0, 0, 1, 300, 2000}
 	var last string
